@@ -134,6 +134,8 @@ def expr(n):
         return ('str', n.get('value', '""').strip('"'))
     if k == 'DeclRefExpr':
         rd = n.get('referencedDecl', {})
+        if rd.get('kind') == 'EnumConstantDecl':
+            return ('enumconst', rd.get('name', '?'))
         return ('var', rd.get('name', '?'))
     if k == 'CXXThisExpr':
         return ('this',)
